@@ -61,6 +61,9 @@ func Reset(root string) {
 	W.mu.Unlock()
 }
 
+// Simulated reports whether the calling goroutine runs inside a simulation.
+func Simulated() bool { return vrt.S.Active && vrt.Cur() != nil }
+
 // NextSeq hands out global event sequence numbers (shared with the process seam).
 func NextSeq() int {
 	W.mu.Lock()
